@@ -6,13 +6,20 @@
 (* State (old, new, log): `old` is a base schema, `new` the schema after   *)
 (* the edits recorded in `log`.  A schema is a sequence of source-level    *)
 (* combinators                                                             *)
-(*   [fn, name, typ, tag, targs, fields, res]                              *)
+(*   [fn, name, typ, explicit, tag, targs, fields, res]                    *)
 (*   fn     : BOOLEAN          function (TRUE) or type constructor         *)
 (*   name   : constructor / function name                                  *)
 (*   typ    : result type name of a constructor ("" for functions);        *)
 (*            constructors with equal typ form one (union) type            *)
-(*   tag    : explicit tag atom k, written #000000kk (domain restriction of *)
-(*            DESIGN 6: every combinator carries an explicit tag)          *)
+(*   explicit, tag : the effective 32-bit tag as 4 little-endian bytes.    *)
+(*            explicit = TRUE: written in the text (#000000kk for the tags *)
+(*            minted here); explicit = FALSE: the implicit CRC32 tag, taken *)
+(*            by the harness from the real front end (Combinator.Crc32()). *)
+(*            A textual edit of an implicitly tagged combinator changes its *)
+(*            tag by definition, so edits are applied to combinators whose  *)
+(*            tag is explicit, or does not matter (Editable below); for an  *)
+(*            edited implicit combinator the recorded tag is refreshed by   *)
+(*            the harness before WireCompatible is evaluated on a trace.    *)
 (*   targs  : sequence of names of {x:#} template parameters               *)
 (*   fields : sequence of [name, ty, mask, bit]; mask = "" when unmasked   *)
 (*   res    : result type expression of a function                         *)
@@ -76,9 +83,11 @@ CtorsOfType(S, T) == {i \in CtorIdxs(S) : S[i].typ = T}
 TypeNames(S) == {S[i].typ : i \in CtorIdxs(S)}
 TypeOfRef(S, n) == IF IsCtorName(S, n) THEN S[IdxOf(S, n)].typ ELSE n
 Targets(S, n) == IF IsCtorName(S, n) THEN {IdxOf(S, n)} ELSE CtorsOfType(S, n)
+TagNum(t) == IF t[2] = 0 /\ t[3] = 0 /\ t[4] = 0 THEN t[1] ELSE 0
 MaxTag(S) == LET RECURSIVE M(_)
-                 M(i) == IF i > Len(S) THEN 0 ELSE LET r == M(i + 1) IN IF S[i].tag > r THEN S[i].tag ELSE r
+                 M(i) == IF i > Len(S) THEN 0 ELSE LET r == M(i + 1) IN IF TagNum(S[i].tag) > r THEN TagNum(S[i].tag) ELSE r
              IN M(1)
+FreshTag(S) == <<MaxTag(S) + 1, 0, 0, 0>>             \* a new explicit tag #000000kk
 
 NatVars(c) == Range(c.targs) \cup {c.fields[j].name : j \in {j \in 1..Len(c.fields) : c.fields[j].ty.t = "#"}}
 AllNatVars(S) == UNION {NatVars(S[k]) : k \in 1..Len(S)}
@@ -92,6 +101,11 @@ VarReferenced(c, x) == \/ \E j \in 1..Len(c.fields) : c.fields[j].mask = x
 (* all references to type T (by type name or by one of its constructor names) *)
 RefsToType(S, T) == {n \in UNION {CombNodes(S[i]) : i \in 1..Len(S)} : ~(n.t \in Builtins) /\ TypeOfRef(S, n.t) = T}
 UsedBare(S, T) == \E n \in RefsToType(S, T) : n.bare \/ IsCtorName(S, n.t)
+UsedBoxed(S, T) == \E n \in RefsToType(S, T) : ~n.bare /\ ~IsCtorName(S, n.t)
+(* the tag of combinator ci is on the wire of some value of S, or was pinned in the text *)
+TagMatters(S, ci) == S[ci].explicit \/ S[ci].fn \/ UsedBoxed(S, S[ci].typ)
+(* domain of the edits that change the text of a combinator (DESIGN 6) *)
+Editable(S, i) == S[i].explicit \/ ~TagMatters(S, i)
 
 ---------------------------------------------------------------------------
 (* nat values are SETS OF BITS (TLC integers are 32-bit, bit 31 must work) *)
@@ -117,7 +131,7 @@ CallEnv(c, args, env) ==
 (*   [s |-> "seq", e |-> elements]   [s |-> "struct", c |-> ctor, f |-> fs] *)
 (*   [s |-> "absent"] for a field whose mask bit is not set.                *)
 Absent == [s |-> "absent"]
-TagBytes(k) == <<k, 0, 0, 0>>                     \* explicit tag #000000kk, little endian
+TagBytes(t) == t                                  \* tags are kept as their 4 little-endian bytes
 BuiltinTag(t) == CASE t = "int"    -> <<218, 155, 80, 168>>     \* int#a8509bda
                    [] t = "long"   -> <<186, 108, 7, 34>>       \* long#22076cba
                    [] t = "string" -> <<36, 110, 40, 181>>      \* string#b5286e24
@@ -346,7 +360,7 @@ CtorValueOK(old, new, ci, env, v) ==
      /\ d.ok /\ d.rest = <<>>
      /\ Agrees(d.v, v)
      /\ Enc1(new, ni, env, d.v) = b
-     /\ TagBytes(new[ni].tag) = TagBytes(old[ci].tag)          \* boxed encodings start with the tag
+     /\ TagMatters(old, ci) => TagBytes(new[ni].tag) = TagBytes(old[ci].tag)   \* boxed encodings start with the tag
 
 (* environment seen by the result type of a function: its # arguments *)
 RECURSIVE ReqEnv(_, _, _, _)
@@ -441,7 +455,7 @@ AppendMaskedField(O, S) ==
   { [s |-> SetFields(S, i, Append(S[i].fields, Field(FreshField(S[i], "zf"), ty, x, b))),
      e |-> Entry("AppendMaskedField", TRUE, TRUE, S[i].name, IF x \in Range(S[i].targs) THEN "template-mask" ELSE "field-mask", FALSE, <<i, x, b, ty.t>>)]
     : <<i, x, b, ty>> \in { q \in (1..Len(S)) \X AllNatVars(S) \X Bits \X {TInt, TNat} :
-                              /\ q[2] \in NatVars(S[q[1]])
+                              /\ q[2] \in NatVars(S[q[1]]) /\ Editable(S, q[1])
                               /\ q[4] = TNat => q[3] = 0
                               /\ NewMaskOf(O, S[q[1]]) \in {"", q[2]}
                               /\ OldBitClass(O, S, q[1], q[2], q[3]) = "free" } }
@@ -449,25 +463,25 @@ AppendMaskedField(O, S) ==
 AppendConstructor(O, S) ==
   { LET l == LastOfType(S, T)
         first == S[CHOOSE i \in CtorsOfType(S, T) : \A j \in CtorsOfType(S, T) : i <= j]
-        nc == [fn |-> FALSE, name |-> S[l].name \o "N", typ |-> T, tag |-> MaxTag(S) + 1, targs |-> first.targs,
+        nc == [fn |-> FALSE, name |-> S[l].name \o "N", typ |-> T, explicit |-> TRUE, tag |-> FreshTag(S), targs |-> first.targs,
                fields |-> <<Field("v", TInt, "", 0)>>, res |-> TInt]
     IN [s |-> InsertAfter(S, l, nc), e |-> Entry("AppendConstructor", TRUE, TRUE, nc.name, "boxed-only", FALSE, T)]
     : T \in {T \in TypeNames(S) : ~UsedBare(S, T) /\ ~UsedBare(O, T)} }
 
 NewTypeVariants(S) ==
   LET k == ToString(Len(S) + 1) IN
-  { [fn |-> FALSE, name |-> "zt" \o k, typ |-> "Zt" \o k, tag |-> MaxTag(S) + 1, targs |-> <<>>,
+  { [fn |-> FALSE, name |-> "zt" \o k, typ |-> "Zt" \o k, explicit |-> TRUE, tag |-> FreshTag(S), targs |-> <<>>,
      fields |-> <<Field("a", TInt, "", 0)>>, res |-> TInt],
-    [fn |-> FALSE, name |-> "zt" \o k, typ |-> "Zt" \o k, tag |-> MaxTag(S) + 1, targs |-> <<"m">>,
+    [fn |-> FALSE, name |-> "zt" \o k, typ |-> "Zt" \o k, explicit |-> TRUE, tag |-> FreshTag(S), targs |-> <<"m">>,
      fields |-> <<Field("a", TE("string", TRUE, <<>>), "", 0), Field("b", TInt, "m", 0)>>, res |-> TInt] }
 AddType(O, S) ==
   { [s |-> Append(S, c), e |-> Entry("AddType", TRUE, TRUE, c.name, IF c.targs = <<>> THEN "plain" ELSE "with-mask", FALSE, c.targs)] : c \in NewTypeVariants(S) }
 
 NewFnVariants(S) ==
   LET k == ToString(Len(S) + 1) IN
-  { [fn |-> TRUE, name |-> "zq" \o k, typ |-> "", tag |-> MaxTag(S) + 1, targs |-> <<>>,
+  { [fn |-> TRUE, name |-> "zq" \o k, typ |-> "", explicit |-> TRUE, tag |-> FreshTag(S), targs |-> <<>>,
      fields |-> <<Field("fm", TNat, "", 0), Field("x", TInt, "", 0)>>, res |-> TE("int", FALSE, <<>>)],
-    [fn |-> TRUE, name |-> "zq" \o k, typ |-> "", tag |-> MaxTag(S) + 1, targs |-> <<>>,
+    [fn |-> TRUE, name |-> "zq" \o k, typ |-> "", explicit |-> TRUE, tag |-> FreshTag(S), targs |-> <<>>,
      fields |-> <<>>, res |-> TE("int", FALSE, <<>>)] }
 AddFunction(O, S) ==
   { [s |-> Append(S, c), e |-> Entry("AddFunction", TRUE, TRUE, c.name, IF c.fields = <<>> THEN "no-args" ELSE "mask-first", FALSE, Len(c.fields))] : c \in NewFnVariants(S) }
@@ -479,7 +493,7 @@ AppendFunctionMaskAndArgs(O, S) ==
      e |-> Entry("AppendFunctionMaskAndArgs", TRUE, TRUE, c.name,
                  IF \E j \in 1..Len(c.fields) : c.fields[j].ty.t = "#" THEN "has-nat" ELSE "no-nat", FALSE, <<i, b>>)]
     : <<i, b>> \in {q \in FnIdxs(S) \X Bits : /\ \A j \in 1..Len(S[q[1]].fields) : S[q[1]].fields[j].mask = ""
-                                              /\ HasName(O, S[q[1]].name)
+                                              /\ HasName(O, S[q[1]].name) /\ Editable(S, q[1])
                                               /\ Len(S[q[1]].fields) = OldFieldCount(O, S[q[1]])} }
 
 ---- (* UNSAFE, documented *)
@@ -487,7 +501,7 @@ AppendFunctionMaskAndArgs(O, S) ==
 (* an earlier edit of the same evolution created is just another way to write that earlier     *)
 (* edit): positions are restricted to old combinators / old fields.                            *)
 InOld(O, c) == HasName(O, c.name) /\ O[IdxOf(O, c.name)].fn = c.fn
-OldPos(O, S, i, j) == InOld(O, S[i]) /\ j <= OldFieldCount(O, S[i])
+OldPos(O, S, i, j) == InOld(O, S[i]) /\ j <= OldFieldCount(O, S[i]) /\ Editable(S, i)
 OldType(O, T) == T \in TypeNames(O)
 RemoveConstructor(O, S) ==
   { [s |-> RemoveAt(S, i), e |-> Entry("RemoveConstructor", FALSE, TRUE, S[i].name,
@@ -534,7 +548,8 @@ RemoveTemplateArg(O, S) ==
                                !.res = DropArgTE(S, T, @)]]
         referenced == UsedT(S, T, k) # {}           \* the parameter decides a field presence or an array size
     IN [s |-> S2, e |-> Entry("RemoveTemplateArg", FALSE, TRUE, T, IF referenced THEN "referenced" ELSE "unreferenced", ~referenced, T)]
-    : T \in {T \in TypeNames(S) : OldType(O, T) /\ Len(S[CHOOSE i \in CtorsOfType(S, T) : TRUE].targs) > 0} }
+    : T \in {T \in TypeNames(S) : /\ OldType(O, T) /\ Len(S[CHOOSE i \in CtorsOfType(S, T) : TRUE].targs) > 0
+                                   /\ \A i \in CtorsOfType(S, T) : Editable(S, i)} }
 
 (* one-point changes of a type expression: [te, sub, benign].  benign = "not claimed to      *)
 (* break the wire" (changes of nat arguments, see ClaimedArg).  UnsafeBreaks is asserted for *)
@@ -581,7 +596,7 @@ ChangeFieldType(O, S) ==
   \cup
   { [s |-> [S EXCEPT ![q[1]] = [@ EXCEPT !.res = q[2].te]],
      e |-> Entry("ChangeFieldType", FALSE, TRUE, S[q[1]].name, "result-" \o q[2].sub, q[2].benign, <<q[1], q[2].te>>)]
-    : q \in UNION { {<<i, v>> : v \in ResVariants(S, S[i].res, NatVars(S[i]))} : i \in {i \in FnIdxs(S) : InOld(O, S[i])} } }
+    : q \in UNION { {<<i, v>> : v \in ResVariants(S, S[i].res, NatVars(S[i]))} : i \in {i \in FnIdxs(S) : InOld(O, S[i]) /\ Editable(S, i)} } }
 
 MaskedPos(O, S) == UNION { {<<i, j>> : j \in {j \in 1..Len(S[i].fields) : S[i].fields[j].mask # "" /\ OldPos(O, S, i, j)}} : i \in 1..Len(S) }
 UnmaskedPos(O, S) == UNION { {<<i, j>> : j \in {j \in 1..Len(S[i].fields) : S[i].fields[j].mask = "" /\ OldPos(O, S, i, j)}} : i \in 1..Len(S) }
@@ -606,33 +621,44 @@ AppendUnmaskedField(O, S) ==
   { [s |-> SetFields(S, q[1], Append(S[q[1]].fields, Field(FreshField(S[q[1]], "zu"), q[2], "", 0))),
      e |-> Entry("AppendUnmaskedField", FALSE, TRUE, S[q[1]].name,
                  (IF S[q[1]].fn THEN "function-" ELSE "constructor-") \o q[2].t, S[q[1]].fn /\ q[2].t = "#", <<q[1], q[2].t>>)]
-    : q \in {i \in 1..Len(S) : InOld(O, S[i])} \X {TInt, TNat} }
+    : q \in {i \in 1..Len(S) : InOld(O, S[i]) /\ Editable(S, i)} \X {TInt, TNat} }
 ReuseUsedBit(O, S) ==
   { [s |-> SetFields(S, q[1], Append(S[q[1]].fields, Field(FreshField(S[q[1]], "zr"), TInt, q[2], q[3]))),
      e |-> Entry("ReuseUsedBit", FALSE, TRUE, S[q[1]].name,
                  IF q[3] \in (UsedVar(S, q[1], q[2]) \ {SIZE}) THEN "local"
                  ELSE IF q[3] \in FieldFlowVar(S, q[1], q[2]) THEN "outer-scope" ELSE "outer-scope-template-parameter", FALSE, q)]
     : q \in { q \in (1..Len(S)) \X AllNatVars(S) \X Bits :
-                /\ q[2] \in NatVars(S[q[1]])
+                /\ q[2] \in NatVars(S[q[1]]) /\ Editable(S, q[1])
                 /\ OldBitClass(O, S, q[1], q[2], q[3]) = "used" } }
 BareToUnion(O, S) ==
   { LET l == LastOfType(S, T)
-        nc == [fn |-> FALSE, name |-> S[l].name \o "N", typ |-> T, tag |-> MaxTag(S) + 1, targs |-> S[l].targs,
+        nc == [fn |-> FALSE, name |-> S[l].name \o "N", typ |-> T, explicit |-> TRUE, tag |-> FreshTag(S), targs |-> S[l].targs,
                fields |-> <<Field("v", TInt, "", 0)>>, res |-> TInt]
     IN [s |-> InsertAfter(S, l, nc), e |-> Entry("BareToUnion", FALSE, TRUE, nc.name, "", FALSE, T)]
     : T \in {T \in TypeNames(S) : OldType(O, T) /\ Cardinality(CtorsOfType(S, T)) = 1 /\ UsedBare(S, T)} }
 
 ---- (* UNSAFE, not in the documented catalogue (soundness only, C28) *)
 ChangeExplicitTag(O, S) ==
-  { [s |-> [S EXCEPT ![i] = [@ EXCEPT !.tag = MaxTag(S) + 1]],
+  { [s |-> [S EXCEPT ![i] = [@ EXCEPT !.tag = FreshTag(S)]],
      e |-> Entry("ChangeExplicitTag", FALSE, FALSE, S[i].name, IF S[i].fn THEN "function" ELSE "constructor", FALSE, i)]
-    : i \in {i \in 1..Len(S) : InOld(O, S[i])} }
+    : i \in {i \in 1..Len(S) : InOld(O, S[i]) /\ S[i].explicit} }
+(* the explicit tag is dropped (the implicit CRC32 takes over) or an implicitly tagged combinator gets an   *)
+(* explicit tag; the effective tags of implicit combinators are filled in by the harness from the front end *)
+DropExplicitTag(O, S) ==
+  { [s |-> [S EXCEPT ![i] = [@ EXCEPT !.explicit = FALSE]],
+     e |-> Entry("DropExplicitTag", FALSE, FALSE, S[i].name, IF S[i].fn THEN "function" ELSE "constructor", FALSE, i)]
+    : i \in {i \in 1..Len(S) : InOld(O, S[i]) /\ S[i].explicit} }
+AddExplicitTag(O, S) ==
+  { [s |-> [S EXCEPT ![i] = [@ EXCEPT !.explicit = TRUE, !.tag = FreshTag(S)]],
+     e |-> Entry("AddExplicitTag", FALSE, FALSE, S[i].name,
+                 IF S[i].fn THEN "function" ELSE IF TagMatters(S, i) THEN "constructor" ELSE "constructor-bare-only", ~TagMatters(S, i), i)]
+    : i \in {i \in 1..Len(S) : InOld(O, S[i]) /\ ~S[i].explicit} }
 AppendFieldOnSetBit(O, S) ==
   { [s |-> SetFields(S, q[1], Append(S[q[1]].fields, Field(FreshField(S[q[1]], "zs"), TInt, q[2], q[3]))),
      e |-> Entry("AppendFieldOnSetBit", FALSE, FALSE, S[q[1]].name,
                  IF SIZE \in UsedVar(S, q[1], q[2]) \cup MaySetVar(S, q[1], q[2]) THEN "array-size" ELSE "constant-argument", FALSE, q)]
     : q \in { q \in (1..Len(S)) \X AllNatVars(S) \X Bits :
-                /\ q[2] \in NatVars(S[q[1]])
+                /\ q[2] \in NatVars(S[q[1]]) /\ Editable(S, q[1])
                 /\ OldBitClass(O, S, q[1], q[2], q[3]) = "set" } }
 
 SafeEdits(O, S) == AppendMaskedField(O, S) \cup AppendConstructor(O, S) \cup AddType(O, S) \cup AddFunction(O, S)
@@ -640,5 +666,5 @@ SafeEdits(O, S) == AppendMaskedField(O, S) \cup AppendConstructor(O, S) \cup Add
 DocUnsafeEdits(O, S) == RemoveConstructor(O, S) \cup RemoveFunction(O, S) \cup RemoveField(O, S) \cup RemoveTemplateArg(O, S)
                    \cup ChangeFieldType(O, S) \cup ChangeMaskRef(O, S) \cup ChangeMaskBit(O, S) \cup AddMaskToField(O, S)
                    \cup RemoveMaskFromField(O, S) \cup AppendUnmaskedField(O, S) \cup ReuseUsedBit(O, S) \cup BareToUnion(O, S)
-UndocUnsafeEdits(O, S) == ChangeExplicitTag(O, S) \cup AppendFieldOnSetBit(O, S)
+UndocUnsafeEdits(O, S) == ChangeExplicitTag(O, S) \cup AppendFieldOnSetBit(O, S) \cup DropExplicitTag(O, S) \cup AddExplicitTag(O, S)
 =============================================================================
